@@ -5,6 +5,11 @@ HERE = os.path.dirname(os.path.dirname(os.path.abspath(__file__)))
 
 TECH = "deterministic simulation with fault injection"
 CLAIMED = {
+ "C15": dict(
+   level="fault_enumeration", design="5/C15",
+   text="Fault enumeration over a corpus of 113 valid frames covering every parser reachable from ethernet: every truncation length and every offset x {0x00, 0xff, bit flips, seeded values} (quick; all 255 other values in thorough), checksum-repairing variants for ICMPv6/IGMP, plus seeded multi-byte mutation, length-field extremes, splices and random bytes. Each damaged frame goes through PacketIn.parsed / ethernet(raw=...), the layer chain walk, str(), dump() and pack(); every raise is a finding identified by (operation, exception type, file, function). The enumerated part is partitioned exactly over the runs and reported exhaustive only when every chunk ran.",
+   note="Pure-function fault enumeration: the truncation/bit-flip of a received buffer is the fault model the property names; NET-world runs (C11/C19) additionally push damaged frames through the running controller. Signatures omit line numbers.",
+   technique=TECH + ": exhaustive single-fault enumeration (truncation, byte corruption) over a frame corpus with a no-raise oracle"),
  "C20": dict(
    level="exploration", design="5/C20",
    text="Seeded search over per-call socket outcome scripts {accept all, accept k of n, EAGAIN, fatal} x message sequences x thread interleavings: on the controller side the real DeferredSender.run loop runs on an engine-controlled thread against the real Connection.send on the scheduler thread (of_01.py traced at line granularity, real OpenFlow task loop for the closed-exactly-once part); on the switch side the real IO worker/loop with send and send_fast. Invariant at every yield point: bytes accepted by each socket are a prefix of the queued stream; at quiescence after the script ends they are the whole stream; after a fatal error exactly one ConnectionDown / close-handler call.",
